@@ -11,7 +11,7 @@ PROPERTY = 'C10'
 LEVEL = 'exploration'
 RULE = ('compute_combined_features on every frame of 2 feature columns x 2 rows (quick) / x 3 rows (thorough) over the cell alphabet {"", 1, 11, 111, a, ab, b, ü, " "} '
         '(every prefix/suffix aliasing pattern), on 3- and 4-column frames built from every pair of different rows that alias under plain concatenation, orders 2..4, '
-        'caps {1,2,large}; an int-typed family; a long-value family (65-character values differing only in their last character); oracle: equality pattern of each " AND " column == equality pattern of the value tuples, originals untouched, '
+        'caps {1,2,large}; an int-typed family; a long-value family (65-character values differing only in their last character); a shape family (non-default row index, orders 1..5 on 3 features, cap 0, the 3MR relation pass); oracle: equality pattern of each " AND " column == equality pattern of the value tuples, originals untouched, '
         'count = min(cap, C(#features,k)), names in column order; a scoring family compares the interaction score with that of an explicit tuple column; one 300 000-tuple column (collision count of a hash narrower than 64 bits); sequence differential over <= 3 successive batches (same names and row count, other content). '
         'distinct_nontrivial = frames in which at least two rows differ in some constituent')
 ASSUMPTIONS = ['64-bit hash collisions are outside the alphabet (excluded by the statement)']
@@ -19,15 +19,18 @@ ASSUMPTIONS = ['64-bit hash collisions are outside the alphabet (excluded by the
 CELLS = ['', '1', '11', '111', 'a', 'ab', 'b', 'ü', ' ']
 
 
-def combine(columns, data_rows, order, cap, label_pos=None):
+def combine(columns, data_rows, order, cap, label_pos=None, index=None, is_3mr=False):
     """returns (frame_before_copy, frame_after)"""
     import pandas as pd
     from outrank import core_ranking as cr
     harness.reset_state()
-    df = pd.DataFrame([list(r) for r in data_rows], columns=list(columns))
+    df = pd.DataFrame([list(r) for r in data_rows], columns=list(columns), index=index)
     before = df.copy(deep=True)
-    args = harness.make_args(interaction_order=order, combination_number_upper_bound=cap, heuristic='MI-numba-randomized')
-    out = cr.compute_combined_features(df, args, harness.NullBar())
+    args = harness.make_args(interaction_order=order, combination_number_upper_bound=cap, heuristic='MI-numba-3mr' if is_3mr else 'MI-numba-randomized')
+    if is_3mr:
+        out = cr.compute_combined_features(df, args, harness.NullBar(), True)
+    else:
+        out = cr.compute_combined_features(df, args, harness.NullBar())
     return before, df, out
 
 
@@ -36,8 +39,8 @@ def pattern(vals):
     return tuple(seen.setdefault(v, len(seen)) for v in vals)
 
 
-def judge(columns, rows, order, cap):
-    ok, res = safe(combine, columns, rows, order, cap)
+def judge(columns, rows, order, cap, index=None, is_3mr=False):
+    ok, res = safe(combine, columns, rows, order, cap, None, index, is_3mr)
     if not ok:
         return [({'kind': 'exception'}, f'compute_combined_features raised {res}')]
     before, df_in, out = res
@@ -47,11 +50,15 @@ def judge(columns, rows, order, cap):
     # originals untouched (both the frame passed in and the leading columns of the result)
     if list(out.columns[:ncol]) != list(columns) or not out.iloc[:, :ncol].equals(before) or not df_in.equals(before):
         fails.append(({'kind': 'originals_changed'}, 'original columns were modified'))
+    if out.shape[0] != len(rows) or list(out.index) != list(before.index):
+        fails.append(({'kind': 'rows_changed'}, f'{out.shape[0]} rows (index {list(out.index)[:6]}) after the step, {len(rows)} (index {list(before.index)[:6]}) before'))
     new = list(out.columns[ncol:])
-    expected_n = min(cap, math.comb(len(feats), order)) if order > 1 else 0
+    join = ' AND_REL ' if is_3mr else ' AND '
+    eff_order = 2 if is_3mr else order
+    expected_n = min(cap, math.comb(len(feats), eff_order)) if order > 1 else 0
     if len(new) != expected_n:
         fails.append(({'kind': 'count'}, f'{len(new)} interaction columns appended, expected min(cap={cap}, C({len(feats)},{order}))={expected_n}'))
-    valid_names = {' AND '.join(c): c for c in itertools.combinations(feats, order)}
+    valid_names = {join.join(c): c for c in itertools.combinations(feats, eff_order)}
     if len(set(new)) != len(new):
         fails.append(({'kind': 'names'}, f'duplicate interaction names {new}'))
     for name in new:
@@ -119,6 +126,24 @@ def _multi_col(job):
                     st.count('nontrivial')
                     for sig, msg in judge(columns, rows, order, cap):
                         st.violation({'columns': columns, 'rows': rows, 'order': order, 'cap': cap}, msg, sig)
+    return st
+
+
+def _shapes(_):
+    """frames with a non-default row index, orders with no possible combination, the 3MR relation pass with and without interactions"""
+    st = Stats()
+    cols = ['x', 'y', 'z', 'label']
+    base = [['1', '11', 'a', '0'], ['11', '1', 'a', '1'], ['', 'ab', 'b', '0'], ['a', 'b', '', '1']]
+    indexes = [None, [2, 0, 1, 3], ['r3', 'r1', 'r2', 'r0'], [10, 20, 30, 40]]
+    for idx in indexes:
+        for order in (1, 2, 3, 4, 5):
+            for cap in (0, 1, 2 ** 15):
+                for is_3mr in (False, True):
+                    st.count('evaluations')
+                    st.count('shape_cases')
+                    st.count('nontrivial')
+                    for sig, msg in judge(cols, base, order, cap, idx, is_3mr):
+                        st.violation({'columns': cols, 'rows': base, 'order': order, 'cap': cap, 'index': idx, 'is_3mr': is_3mr}, msg, dict(sig, shapes=True))
     return st
 
 
@@ -254,6 +279,8 @@ def _dispatch(item):
         return _seqdiff(job)
     if k == 'long':
         return _long_values(job)
+    if k == 'shapes':
+        return _shapes(job)
     if k == 'birthday':
         return _birthday(job)
     return {'two': _two_col, 'multi': _multi_col, 'ints': _ints, 'scoring': _scoring}[k](job)
@@ -271,7 +298,7 @@ def run(ctx):
         lim = np_ if (ctx.thorough or k == 3) else 600
         jobs += [('multi', (k, lo, hi)) for lo, hi in shards(lim, 48)]
     jobs += [('ints', None), ('scoring', None), ('birthday', None)]
-    jobs += [('seqdiff', (2, 2 ** 15)), ('seqdiff', (3, 2 ** 15)), ('long', None)]
+    jobs += [('seqdiff', (2, 2 ** 15)), ('seqdiff', (3, 2 ** 15)), ('long', None), ('shapes', None)]
     for st in pmap(_dispatch, jobs):
         ctx.stats.merge(st)
     ctx.extra['rows_two_column_family'] = nrows
@@ -286,4 +313,4 @@ def eval_case(case):
         return seqdiff.replay(seq_call, seq_menu(tuple(case['job'])), case['seq'])
     if case.get('kind') == 'birthday':
         return [v['what'] for v in _birthday(None).violations]
-    return [m for _, m in judge(case['columns'], case['rows'], case['order'], case['cap'])]
+    return [m for _, m in judge(case['columns'], case['rows'], case['order'], case['cap'], case.get('index'), bool(case.get('is_3mr')))]
